@@ -31,3 +31,28 @@ Lemma awrap_example_ok :
   | _ => False
   end.
 Proof. split; vm_compute; reflexivity. Qed.
+
+(* ---- windows are a multiset: coinciding (name, begin, length) triples are all kept ----------------------------------- *)
+From Coq Require Import Permutation.
+Lemma coinciding_kept (eq_dec : forall a b : window, {a = b} + {a <> b}) p en mm prog w :
+  create_program p en mm = Program prog ->
+  count_occ eq_dec (loop_windows prog) w = count_occ eq_dec (denote p en mm) w.
+Proof.
+  intro H. apply (proj1 (Permutation_count_occ eq_dec _ _)). apply (create_program_windows p en mm prog H).
+Qed.
+
+(* the demo of seed C02-5: both parallel parts declare (m, 1, 2), a third declaration is renamed onto the same name by an
+   enclosing mapping, the whole is repeated twice: 6 windows, two triples three times each *)
+Definition coincide_example : pt :=
+  Map [] [(2%N, Some 1%N)] []
+      (Rep [] (EC (Q2Qc 2))
+           (Multi [(2%N, EC (Q2Qc 1), EC (Q2Qc 2))]
+                  [Atom false (EC (Q2Qc 4)) [(1%N, EC (Q2Qc 1), EC (Q2Qc 2))];
+                   Atom false (EC (Q2Qc 4)) [(1%N, EC (Q2Qc 1), EC (Q2Qc 2))]])).
+Lemma coincide_example_ok :
+  match create_program coincide_example (fun _ => Q2Qc 0) Some with
+  | Program prog => loop_windows prog = [(1%N, Q2Qc 1, Q2Qc 2); (1%N, Q2Qc 1, Q2Qc 2); (1%N, Q2Qc 1, Q2Qc 2);
+                                        (1%N, Q2Qc 5, Q2Qc 2); (1%N, Q2Qc 5, Q2Qc 2); (1%N, Q2Qc 5, Q2Qc 2)]
+  | _ => False
+  end.
+Proof. vm_compute. reflexivity. Qed.
